@@ -94,6 +94,9 @@ MUTANTS = [
  ('c10_prim_rsqrt_is_sqrt', 'C10', 'src/algebra/vecmath.rs', 'self.scalarop(|x| T::recip(T::sqrt(x)))', 'self.scalarop(|x| T::sqrt(T::recip(x)) * x / x)'),
  ('c14_pow_start_psi2', 'C14', R + 'core/cones/powcone.rs', 'let ψ = T::recip(α * α + (T::one() - α) * (T::one() - α));', 'let ψ: T = (2.).as_T();'),
  ('c12_first_pivot_unguarded', 'C12', 'src/qdldl/qdldl.rs', 'D[0] = if Ap[1] > Ap[0] { Ax[Ap[0]] } else { T::zero() };', 'D[0] = Ax[0];'),
+ ('c17_root_at_argument', 'C17', 'src/solver/chordal/merge/disjoint_set_union.rs', '        while parent != self.parents[parent] {\n            self.parents[parent] = self.parents[self.parents[parent]]; //path compression\n            parent = self.parents[parent];', '        while parent != self.parents[x] {\n            self.parents[x] = self.parents[self.parents[x]]; //path compression\n            parent = self.parents[x];'),
+ ('c17_union_links_element', 'C17', 'src/solver/chordal/merge/disjoint_set_union.rs', '            std::cmp::Ordering::Less => {\n                self.parents[r] = s;', '            std::cmp::Ordering::Less => {\n                self.parents[x] = s;'),
+ ('c17_kruskal_inverted', 'C17', 'src/solver/chordal/merge/clique_graph.rs', '        if !connected_c.in_same_set(row, col) {', '        if connected_c.in_same_set(row, col) {'),
  ('c20_println_debug', 'C20', R + 'core/solver.rs', '            if is_scaling_success {\n                StrategyCheckpoint::NoUpdate', '            if is_scaling_success {\n                println!("scaling ok");\n                StrategyCheckpoint::NoUpdate'),
  ('c20_header_wrong_m', 'C20', D + 'info_print.rs', 'writeln!(out, "  constraints   = {}", data.m)?;', 'writeln!(out, "  constraints   = {}", data.n)?;'),
  ('c18_cones_stale', 'C18', D + 'problemdata.rs', '            cones_new.as_ref().unwrap_or(&cones),\n            settings,\n        );', '            &cones,\n            settings,\n        );'),
